@@ -14,7 +14,8 @@ RULE = ("dec stream: SevenZipDecompressor.decompress/Worker.decompress driven by
         "max_length, copy, empty-forever) vs the Lean decode model incl. the stall guard; hdr stream with mutated headers; "
         "exploration: byte strings from (a) truncation/bit flips/splices of valid archives of each codec family, (b) "
         "structure-aware header mutation (counts, sizes, external flags with every data index) with all CRCs re-sealed, "
-        "(c) wrong/missing password, each x a sequence of read-mode calls, run in a sandboxed child (wall 10 s, "
+        "(c) wrong/missing password, (d) every filter coder (BCJ family incl. IA64, Delta) x every property shape (absent, "
+        "empty, zero/non-zero start offset, short, long), each x a sequence of read-mode calls, run in a sandboxed child (wall 10 s, "
         "address space 1.5 GiB). Non-trivial = input that is not accepted unchanged; distinct by (bytes, call sequence).")
 ASSUMPTIONS = ["wall-clock and RSS are measured by the sandbox, not proved; the proof bounds loop iterations for every decoder",
                "third-party decoders themselves terminate on every input (parameter)"]
@@ -188,6 +189,41 @@ def structural_mutations(rng, data, n, force=None):
     return out
 
 
+PROP_SHAPES = [None, b"", bytes(4), (16).to_bytes(4, "little"), b"\x01", bytes(5), bytes(range(40)), b"\xff" * 4]
+
+
+def coder_property_sweep(rng):
+    """Every filter the decoder dispatches on (the BCJ family incl. IA64, Delta) in front of LZMA2, with every
+    shape of coder property a header can legally carry for it (absent, empty, 4-byte start offset zero /
+    non-zero, too short, too long): a property is handed to the native filter set-up code, which must
+    refuse it with an exception, never with the death of the interpreter."""
+    import py7zr.archiveinfo as ai
+    members = [("a.bin", bytes(range(64)) * 3), ("b.txt", b"hello")]
+    fams = [("X86", arclib.FILTER_X86), ("ARM", arclib.FILTER_ARM), ("ARMT", arclib.FILTER_ARMTHUMB), ("PPC", arclib.FILTER_POWERPC),
+            ("SPARC", arclib.FILTER_SPARC), ("IA64", arclib.FILTER_IA64), ("Delta", arclib.FILTER_DELTA)]
+    out = []
+    for nm, fid in fams:
+        flt = [{"id": fid, "dist": 1} if nm == "Delta" else {"id": fid}, {"id": arclib.FILTER_LZMA2, "preset": 1}]
+        try:
+            data = arclib.write_archive(members, filters=flt, header="raw")
+        except Exception:  # noqa
+            continue
+        payload, hdr = split_archive(data)
+        for shape in PROP_SHAPES:
+            try:
+                h = ai.Header.retrieve(io.BytesIO(b""), io.BytesIO(hdr), 0)
+                for f in h.main_streams.unpackinfo.folders:
+                    for c in f.coders:
+                        if c["method"] != b"\x21":
+                            c["properties"] = shape
+                buf = io.BytesIO()
+                h.write(buf, 0, encoded=False)
+                out.append(("%s+LZMA2" % nm, "prop-%s" % ("none" if shape is None else len(shape) if any(shape) or not shape else "zero%d" % len(shape)), seal(payload, buf.getvalue())))
+            except Exception:  # noqa
+                continue
+    return out
+
+
 def raw_count_mutations(rng, data):
     """Overwrite NUMBER fields in place with huge values (the serialiser would refuse some of them)."""
     payload, hdr = split_archive(data)
@@ -276,6 +312,8 @@ def run(ctx):
                 add(nm + ":" + lab, m, pw, seq=[rng.choice(["extractall", "testzip", "test"]), "extractall"])
     for lab, m in external_mutations(bases[1][1]):
         add("Copy:" + lab, m, None)
+    for fam, lab, m in coder_property_sweep(rng):
+        add(fam + ":" + lab, m, None, seq=[rng.choice(["extractall", "testzip"]), "extractall"])
     # degenerate inputs
     for blob in (b"", b"7z", b"7z\xbc\xaf\x27\x1c", b"7z\xbc\xaf\x27\x1c\x00\x04" + bytes(24), seal(b"", b""), seal(b"", b"\x01"), seal(b"", b"\x17"),
                  seal(b"", b"\x01\x00"), seal(b"", b"\x01\x05"), seal(b"", b"\x01\x04\x06")):
